@@ -333,7 +333,7 @@ static void binary_pairs(Context& cx, const Fn& f, mfn::Arbiter& arb, long budge
             const int nmax = 64 / (int)sizeof(T);
             T xs[64], ys[64];
             ld refs[64];
-            const int cls = *rc::gen::resize(100, rc::gen::inRange<int>(0, 6));
+            const int cls = *rc::gen::resize(100, rc::gen::inRange<int>(0, n == "pow" ? 8 : 6));
             for (int l = 0; l < nmax; ++l)
             {
                 double x, y;
@@ -341,6 +341,25 @@ static void binary_pairs(Context& cx, const Fn& f, mfn::Arbiter& arb, long budge
                 {
                     switch (cls)
                     {
+                    case 6:
+                    case 7:
+                    {
+                        // negative base, integral exponent at the edge of the significand: every integer is representable up to 2^digits
+                        // (odd ones included), beyond it all values are even integers -- the parity test of pow decides the sign of the result.
+                        // class 6: |base| away from 1 (the result saturates: the sign is judged); class 7: base = -(1 +- k eps) (the result stays in range)
+                        const int dg = L::digits;
+                        const int p = *rc::gen::resize(100, rc::gen::inRange<int>(dg - 3, dg + 8));
+                        const int j = *rc::gen::resize(100, rc::gen::inRange<int>(-5, 6));
+                        double yy = std::ldexp(1.0, p) + (double)j * std::max(1.0, std::ldexp(1.0, p - dg + 1));
+                        if (*rc::gen::arbitrary<bool>())
+                            yy = -yy;
+                        y = yy;
+                        if (cls == 6)
+                            x = -std::fabs(*mag(-3, 4));
+                        else
+                            x = -(1.0 + (double)*rc::gen::resize(100, rc::gen::inRange<int>(-6, 7)) * (double)L::epsilon());
+                        break;
+                    }
                     case 0: x = std::fabs(*mag(-4, 5)); y = *mag(-3, 6); break; // moderate
                     case 1: x = std::fabs(*mag(-1, 1)) ; y = *mag(3, 9); break; // base near 1..2, larger exponents
                     case 2: x = std::fabs(*mag(emin / 2, emax / 2)); y = *mag(-2, 2); break; // wide bases
